@@ -988,6 +988,10 @@ class Interp:
         v = self.ev(sl, env)
         if isinstance(v, IndexSet):
             return v
+        if isinstance(v, list) and v and all(isinstance(x, Poly) and x.const_value() is not None for x in v):
+            return [self.intval(x, sl) for x in v]
+        if isinstance(v, Arr) and v.ndim == 1 and all(x.const_value() is not None for x in v.data):
+            return [self.intval(x, sl) for x in v.data]
         if isinstance(v, tuple) and all(isinstance(x, Poly) for x in v):
             return tuple(self.intval(x, sl) for x in v)
         return self.intval(v, sl)
@@ -1035,6 +1039,13 @@ class Interp:
                 raise self.unsupported("index set on 1-D array", node)
             try:
                 return Arr([v.data[i][j] for i, j in idx.pairs], 1)
+            except IndexError:
+                raise PathRaise("IndexError", self.where(node))
+        if isinstance(idx, list):
+            try:
+                if v.ndim == 1:
+                    return Arr([v.data[i] for i in idx], 1)
+                return Arr([list(v.data[i]) for i in idx], 2)
             except IndexError:
                 raise PathRaise("IndexError", self.where(node))
         if v.ndim == 1:
